@@ -30,6 +30,8 @@ def check_iban(text: str):
 
 def check_iban_object(o):
     probs = []
+    for name in ("bic", "bank", "bank_name"):  # registry lookups before the fields are read
+        lib.outcome(lambda: getattr(o, name))
     s = str(o)
     country = s[:2]
     c = reg.countries().get(country)
